@@ -600,6 +600,13 @@ func params(r *ev.Run, tier string) (evals, nontrivial int64) {
 			rewards = append(rewards, "["+coin("aaa", x)+","+coin("bbb", y)+"]", "["+coin("bbb", y)+","+coin("aaa", x)+"]", "["+coin("aaa", x)+","+coin("aaa", y)+"]")
 		}
 	}
+	// three entries: a denomination repeated with another one in between, and three distinct ones
+	for _, x := range amounts[1:] {
+		for _, y := range amounts {
+			rewards = append(rewards, "["+coin("aaa", x)+","+coin("bbb", y)+","+coin("aaa", x)+"]", "["+coin("bbb", x)+","+coin("aaa", y)+","+coin("bbb", x)+"]",
+				"["+coin("aaa", x)+","+coin("bbb", y)+","+coin("ccc", x)+"]", "["+coin("aaa", x)+","+coin("aaa", y)+","+coin("bbb", x)+"]")
+		}
+	}
 	rewards = append(rewards, `[]`, `[{"denom":"aaa","amount":"-1"}]`, `[{"denom":"","amount":"1"}]`, `[{"denom":"aaa","amount":"340282366920938463463374607431768211456"}]`, `null`, `[{"denom":"a a","amount":"1"}]`)
 	pools := [][2]int64{{0, 0}, {1, 0}, {2, 2}, {5, 5}}
 	if tier == "thorough" {
